@@ -268,7 +268,7 @@ Definition c06_first_four (c : ecase) : option string :=
       let E := env_of c in
       let o := with_opts (k_opts c) (Some (big c)) (Some false) (Some true) false in
       let n := Z.of_nat (List.length (k_cmds c)) in
-      let first4 := firstn 4 (dedup [] (tokenize (k_stop c) (k_q c))) in
+      let first4 := firstn 4 (tokenize (k_stop c) (k_q c)) in     (* the first four content words AS TYPED (a repeated word counts twice) *)
       let hits := fun (d : command) (t : bytes) =>
         tf_any (doc_tf E d t) && negb (PrimFloat.ltb (e_idf E n (df E (k_cmds c) t)) (p_min_idf (e_params E))) in
       if existsb (fun ic : nat * command => eligible E o (snd ic) && existsb (hits (snd ic)) first4 &&
